@@ -62,6 +62,8 @@ pub struct Trace {
     pub nonzero: Vec<(u64, u32)>,
     pub max_options: u32,
     pub pushes: u64,
+    /// cooperative preemption points reached inside jobs (vendored rayon combinators)
+    pub preempt_points: u64,
     pub steals: u64,
     pub injections: u64,
     pub injected: u64,
@@ -137,4 +139,12 @@ pub fn next_pool_id() -> u64 {
 /// not of how many pools this OS process created before)
 pub fn reset_pool_ids(v: u64) {
     crate::NEXT_POOL_ID.store(v, std::sync::atomic::Ordering::SeqCst);
+}
+
+/// Cooperative preemption point for code running inside a job (used by the vendored
+/// `rayon` at the places where its combinators touch shared state): when called on a
+/// worker of a simulated pool, the scheduler may let another worker run before this one
+/// continues.  No-op on other threads.
+pub fn preempt() {
+    crate::preempt_point();
 }
